@@ -520,7 +520,7 @@ func c08() {
 		}
 		style := []int{0, 0, 1, 2}[i%4]
 		kc := buildKernelCase(r, o, ts, goarch, style, i%2 == 0, run.Thorough() && i%25 == 7)
-		kc.strace = i%5 == 0
+		kc.strace = i%2 == 0
 		kc.desc = fmt.Sprintf("case %d %s", i, kc.desc)
 		judgeEnforce(run, o, kc, st, "")
 		if i == 1 || i == 2 {
